@@ -48,27 +48,43 @@ class ChunkParser:
             self.chunk = b''
             # Extract following chunk data size
             line, raw = find_http_line(raw)
-            # CRLF not received or Blank line was received.
-            if line is None or line.strip() == b'':
+            # CRLF not received
+            if line is None:
                 self.chunk = raw
                 raw = b''
+            # Blank line was received i.e. the CRLF which
+            # terminates data of the previous chunk, skip it.
+            elif line.strip() == b'':
+                pass
             else:
-                self.size = int(line, 16)
+                # Chunk extensions, if any, are ignored
+                self.size = int(line.split(b';', 1)[0].strip(), 16)
                 self.state = chunkParserStates.WAITING_FOR_DATA
         elif self.state == chunkParserStates.WAITING_FOR_DATA:
             assert self.size is not None
-            remaining = self.size - len(self.chunk)
-            self.chunk += raw[:remaining]
-            raw = raw[remaining:]
-            if len(self.chunk) == self.size:
-                raw = raw[len(CRLF):]
-                self.body += self.chunk
-                if self.size == 0:
-                    self.state = chunkParserStates.COMPLETE
-                else:
-                    self.state = chunkParserStates.WAITING_FOR_SIZE
+            if self.size == 0:
+                # Last chunk is followed by an optional trailer
+                # section and is terminated by a blank line.
+                raw = self.chunk + raw
                 self.chunk = b''
-                self.size = None
+                line, raw = find_http_line(raw)
+                if line is None:
+                    self.chunk = raw
+                    raw = b''
+                elif line == b'':
+                    self.state = chunkParserStates.COMPLETE
+                    self.size = None
+            else:
+                remaining = self.size - len(self.chunk)
+                self.chunk += raw[:remaining]
+                raw = raw[remaining:]
+                if len(self.chunk) == self.size:
+                    # CRLF terminating the chunk data is
+                    # consumed when looking for next chunk size
+                    self.body += self.chunk
+                    self.state = chunkParserStates.WAITING_FOR_SIZE
+                    self.chunk = b''
+                    self.size = None
         return len(raw) > 0, memoryview(raw)
 
     @staticmethod
